@@ -10,10 +10,22 @@ pub fn pat(j: usize, i: usize) -> u8 {
     (1 + ((j * 17 + i) % 120)) as u8
 }
 
-/// root buffers that have a user-settable capacity (pool buffers); nothing for the others
+/// what the interpreter needs from a root buffer besides the compio-buf traits
 pub trait RootCap {
+    /// `set_capacity` of pool buffers; nothing for the others
     fn set_capacity_step(&mut self, _n: usize) {}
+    /// size of the allocation the buffer lives in (pool buffers: the full buffer)
+    fn alloc_len(&mut self) -> usize;
+    /// (pointer, length) of the immutable and of the mutable view of the initialised bytes
+    /// the concrete type offers (Deref / DerefMut, as_slice / as_mut_slice)
+    fn deref_views(&mut self) -> [(usize, usize); 2];
+    /// every byte of the mutable view += 1
+    fn bump_deref_mut(&mut self);
 }
+
+/// payload of the trap that stands for memory corruption the real code would commit
+/// (a raw copy / a slice that leaves the allocation); reported as `2 4`
+pub struct UbTrap;
 
 pub enum Node<R> {
     Root(R),
@@ -36,6 +48,14 @@ impl<R: IoBufMut> IoBufMut for Node<R> {
             Node::Root(r) => r.as_uninit(),
             Node::Slice(s) => s.as_uninit(),
             Node::Uninit(u) => u.as_uninit(),
+        }
+    }
+
+    fn reserve(&mut self, len: usize) -> Result<(), compio_buf::ReserveError> {
+        match self {
+            Node::Root(r) => r.reserve(len),
+            Node::Slice(s) => s.reserve(len),
+            Node::Uninit(u) => u.reserve(len),
         }
     }
 }
@@ -88,6 +108,35 @@ impl<R: IoBufMut> Node<R> {
         }
     }
 
+    /// reserve(k) as extend_from_slice does first; after a growth the new spare capacity of
+    /// the root is refilled with canaries (`recanary`), so that it stays comparable
+    pub fn reserve_step(&mut self, k: usize, recanary: &dyn Fn(&mut R)) -> u64 {
+        let cap0 = (*self.root_mut()).as_uninit().len();
+        let res = IoBufMut::reserve(self, k);
+        if (*self.root_mut()).as_uninit().len() != cap0 {
+            recanary(self.root_mut());
+        }
+        match res {
+            Ok(()) => 0,
+            Err(e) if e.is_not_supported() => 1,
+            Err(_) => 2,
+        }
+    }
+
+    /// the reserve of extend_from_slice, then the trap for a copy that would leave the
+    /// allocation `[.., alloc_end)`; returns the reserve result
+    pub fn pre_extend(&mut self, k: usize, alloc_end: &dyn Fn(&mut R) -> usize, recanary: &dyn Fn(&mut R)) -> u64 {
+        let init = (*self).as_init().len();
+        let res = self.reserve_step(k, recanary);
+        if res == 0 {
+            let dst = (*self).as_uninit().as_ptr() as usize + init;
+            if dst + k > alloc_end(self.root_mut()) {
+                std::panic::panic_any(UbTrap);
+            }
+        }
+        res
+    }
+
     /// `Slice<Slice<T>>::flatten` when the view is a slice of a slice (else unchanged).
     /// The nested value of the static type is rebuilt from the inner `Slice` with the outer
     /// begin/end (`slice(0..)` + `set_begin_unchecked` + `set_end`), then the real
@@ -124,6 +173,11 @@ pub enum BStep {
     FillSet(usize),
     Flatten,
     SetCap(usize),
+    Extend(usize),
+    Reserve(usize),
+    Writer(usize),
+    Views,
+    BumpRoot,
 }
 
 /// `ns (code a b)*` and nothing after it
@@ -146,6 +200,11 @@ pub fn decode_bsteps(c: &mut Case) -> Result<Vec<BStep>, BadCase> {
             5 => BStep::FillSet(a),
             6 => BStep::Flatten,
             7 => BStep::SetCap(a),
+            8 => BStep::Extend(a),
+            9 => BStep::Reserve(a),
+            10 => BStep::Writer(a),
+            11 => BStep::Views,
+            12 => BStep::BumpRoot,
             _ => return Err(BadCase),
         });
     }
@@ -155,8 +214,10 @@ pub fn decode_bsteps(c: &mut Case) -> Result<Vec<BStep>, BadCase> {
     Ok(steps)
 }
 
-/// `o l o' c rlen`: offsets relative to the base pointer of the root allocation
-pub fn query_b<R: IoBufMut>(out: &mut Vec<u64>, node: &mut Node<R>, base: usize) {
+/// `o l o' c rlen`: offsets relative to the base pointer of the root allocation (taken now:
+/// a growing reserve moves it)
+pub fn query_b<R: IoBufMut>(out: &mut Vec<u64>, node: &mut Node<R>) {
+    let base = (*node.root_mut()).as_uninit().as_ptr() as usize;
     let (ip, il) = {
         let s = (*node).as_init();
         (s.as_ptr() as usize, s.len())
@@ -172,11 +233,24 @@ pub fn query_b<R: IoBufMut>(out: &mut Vec<u64>, node: &mut Node<R>, base: usize)
     out.push((*node.root_mut()).as_init().len() as u64);
 }
 
+/// refill the spare capacity [len, cap) of a root with canaries (after a growth)
+pub fn recanary<R: IoBufMut>(r: &mut R) {
+    let len = (*r).as_init().len();
+    let u = (*r).as_uninit();
+    for i in len..u.len() {
+        u[i].write(verif_harness::canary(i));
+    }
+}
+
+fn alloc_end<R: IoBufMut + RootCap>(r: &mut R) -> usize {
+    (*r).as_uninit().as_ptr() as usize + r.alloc_len()
+}
+
 /// runs the steps, printing the query after each; returns the root
-pub fn run_bsteps<R: IoBufMut + RootCap>(out: &mut Vec<u64>, root: R, base: usize, steps: Vec<BStep>) -> R {
+pub fn run_bsteps<R: IoBufMut + RootCap>(out: &mut Vec<u64>, root: R, steps: Vec<BStep>) -> R {
     let mut node: Node<R> = Node::Root(root);
     let mut j = 0usize;
-    query_b(out, &mut node, base);
+    query_b(out, &mut node);
     for st in steps {
         match st {
             BStep::Query => {}
@@ -199,8 +273,72 @@ pub fn run_bsteps<R: IoBufMut + RootCap>(out: &mut Vec<u64>, root: R, base: usiz
             }
             BStep::Flatten => node = node.flatten(),
             BStep::SetCap(n) => node.root_mut().set_capacity_step(n),
+            BStep::Extend(k) => {
+                let chunk: Vec<u8> = (0..k).map(|i| pat(j, i)).collect();
+                let res = node.pre_extend(k, &alloc_end::<R>, &recanary::<R>);
+                // the real call (its own reserve now finds the room, or fails the same way)
+                let real = match node.extend_from_slice(&chunk) {
+                    Ok(()) => 0,
+                    Err(e) if e.is_not_supported() => 1,
+                    Err(_) => 2,
+                };
+                assert_eq!(res, real, "reserve and extend_from_slice disagree");
+                out.push(real);
+                j += 1;
+            }
+            BStep::Reserve(k) => {
+                let res = node.reserve_step(k, &recanary::<R>);
+                out.push(res);
+            }
+            BStep::Writer(k) => {
+                use std::io::Write;
+                let chunk: Vec<u8> = (0..k).map(|i| pat(j, i)).collect();
+                node.pre_extend(k, &alloc_end::<R>, &recanary::<R>);
+                match node.as_writer().write(&chunk) {
+                    Ok(n) => {
+                        out.push(0);
+                        out.push(n as u64);
+                    }
+                    Err(_) => {
+                        out.push(1);
+                        out.push(0);
+                    }
+                }
+                j += 1;
+            }
+            BStep::Views => {
+                let base = (*node.root_mut()).as_uninit().as_ptr() as usize;
+                let end = alloc_end(node.root_mut());
+                let (mp, ml) = {
+                    let s = node.as_mut_slice();
+                    (s.as_mut_ptr() as usize, s.len())
+                };
+                let (sp, sl) = match &mut node {
+                    Node::Slice(s) => {
+                        let d: &mut [u8] = &mut **s;
+                        (d.as_mut_ptr() as usize, d.len())
+                    }
+                    other => {
+                        let d = (*other).as_init();
+                        (d.as_ptr() as usize, d.len())
+                    }
+                };
+                if mp + ml > end {
+                    // a mutable slice that leaves the allocation: do not touch it
+                    std::panic::panic_any(UbTrap);
+                }
+                let dv = node.root_mut().deref_views();
+                for x in [(mp, ml), (sp, sl), dv[0], dv[1]] {
+                    out.push(x.0.wrapping_sub(base) as u64);
+                    out.push(x.1 as u64);
+                }
+                for b in node.as_mut_slice().iter_mut() {
+                    *b = b.wrapping_add(1);
+                }
+            }
+            BStep::BumpRoot => node.root_mut().bump_deref_mut(),
         }
-        query_b(out, &mut node, base);
+        query_b(out, &mut node);
     }
     node.into_root()
 }
